@@ -165,7 +165,8 @@ Prods(sym, rich) ==
           <<T("%if"), W, NT("Expr"), wb, T("%then"), W, X("t")>>}
     [] sym = "Balanced" ->
          {<<>>, <<X("a,b")>>, <<X("x=1;y")>>, <<X(", ")>>} \cup
-         (IF rich THEN {<<X("("), NT("Balanced"), XC, NT("Balanced")>>, <<X("k="), NT("MVarRef")>>} ELSE {})
+         (IF rich THEN {<<X("("), NT("Balanced"), XC, NT("Balanced")>>, <<X("k="), NT("MVarRef")>>,
+                        <<X("a "), NT("ArgStmt")>>} ELSE {})
     [] sym = "StrCall" ->
          {<<T(k), w, DH("(", "LPAREN", "lparen"), NT("StrText"), <<"close", "rparen", "HIDDEN">>>> : k \in {"%str", "%nrstr"}}
     [] sym = "StrText" ->
@@ -281,6 +282,8 @@ NoFault == [kind |-> "", o |-> 0 - 1, lvl |-> 0, closeAt |-> 0 - 1, trunc |-> FA
 \* (-1: inside a double-quoted string, where the count is not the property's business)
 NOpen(st) == IF \E i \in 1..Len(st) : st[i] = X("\"") THEN 0 - 1
              ELSE Cardinality({i \in 1..Len(st) : st[i][1] \in {"close", "xclose"} \/ (st[i][1] = "d" /\ st[i][2] = ")")})
+                  \* ... minus those whose opening parenthesis is itself still to come
+                  - Cardinality({i \in 1..Len(st) : (st[i][1] = "d" /\ st[i][2] = "(") \/ st[i] = X("(")})
 
 \* initial stacks: a whole program, or (to concentrate random derivations on one construct) the construct
 \* Focus as a %let value, as %put text and in open code, followed by a program
@@ -386,6 +389,15 @@ EmitD ==
   /\ stack' = Tail(stack)
   /\ UNCHANGED fuel
 
+\* the program is cut short where a delimiter would come, with parentheses still open (outside double quotes)
+CutShort ==
+  /\ AllowFault /\ fault.kind = ""
+  \* (not before an opening parenthesis: the recovery for a built-in call without its "(" supplies a pair of its own)
+  /\ stack # <<>> /\ Head(stack)[1] = "d" /\ Head(stack)[2] # "(" /\ NOpen(stack) > 0
+  /\ fault' = [kind |-> "rparen", o |-> off, lvl |-> lvl, closeAt |-> 0 - 1, trunc |-> TRUE, nopen |-> NOpen(stack)]
+  /\ stack' = <<>>
+  /\ UNCHANGED <<out, off, exps, lastSemi, lvl, fuel>>
+
 \* the closing parenthesis of a call
 EmitClose ==
   /\ stack # <<>> /\ Head(stack)[1] = "close"
@@ -415,7 +427,7 @@ Finish ==
   /\ done' = TRUE
   /\ UNCHANGED <<stack, out, off, exps, fuel, fault, lastSemi, lvl>>
 
-Step == Expand \/ EmitT \/ EmitC \/ EmitX \/ EmitXClose \/ EmitInt \/ EmitW \/ EmitD \/ EmitClose
+Step == Expand \/ EmitT \/ EmitC \/ EmitX \/ EmitXClose \/ EmitInt \/ EmitW \/ EmitD \/ CutShort \/ EmitClose
 Next == (Step /\ UNCHANGED done) \/ Finish
 
 Spec == Init /\ [][Next]_vars
